@@ -24,8 +24,18 @@ import (
 
 func init() { register(&Property{ID: "C01", Gen: genC01, Check: checkC01}) }
 
-func c01FileContent(r *rand.Rand, g *luaGen) []byte {
-	switch r.Intn(16) {
+// c01FileContent draws one file.  emph (a per-scenario emphasis) forces a family of rare inputs for
+// every file of the scenario, so that each family gets a steady share of the runs however broad
+// the mix becomes: 1 = constructs cut off by the end of the file, 2 = cyclic annotation graphs.
+func c01FileContent(r *rand.Rand, g *luaGen, emph int) []byte {
+	k := r.Intn(16)
+	switch emph {
+	case 1:
+		k = 14
+	case 2:
+		k = []int{10, 11, 15}[r.Intn(3)]
+	}
+	switch k {
 	case 0, 1, 2, 3:
 		return []byte(g.Program(2 + r.Intn(12)))
 	case 4, 5:
@@ -52,7 +62,7 @@ func c01FileContent(r *rand.Rand, g *luaGen) []byte {
 		}
 		return []byte(sb.String())
 	case 14:
-		if r.Intn(2) == 0 {
+		if r.Intn(2) == 0 && emph != 1 {
 			return nil
 		}
 		// a construct cut off by the end of the file: truncate a program at an arbitrary byte, and
@@ -141,7 +151,7 @@ func randJSONConfig(r *rand.Rand, names []string) (string, string) {
 			return p
 		})
 	})
-	frames := []string{"import", "include", "load_mod", "", "a.b"}
+	frames := []string{"import", "include", "load_mod", "", "a.b", "inc)lude", "f[", "x*", "a(b"}
 	opt("ReferFrameFiles", func() interface{} {
 		return some(3, func() interface{} {
 			e := map[string]interface{}{}
@@ -205,6 +215,8 @@ func genC01(seed int64, tier string) *Scenario {
 		sc.Sched.Knobs["lru"] = 1 + r.Intn(3)
 	}
 	g := newLuaGen(r)
+	emph := []int{0, 0, 0, 1, 2}[r.Intn(5)]
+	sc.Knobs["emph"] = emph
 	nfiles := 1 + r.Intn(9)
 	var names []string
 	for i := 0; i < nfiles; i++ {
@@ -216,7 +228,7 @@ func genC01(seed int64, tier string) *Scenario {
 			n = fmt.Sprintf("d%d/init.lua", i%3)
 		}
 		names = append(names, n)
-		sc.Files = append(sc.Files, File{Path: n, Data: Bytes(c01FileContent(r, g))})
+		sc.Files = append(sc.Files, File{Path: n, Data: Bytes(c01FileContent(r, g, emph))})
 	}
 	if r.Intn(8) == 0 {
 		names = append(names, "main.lua")
@@ -241,7 +253,14 @@ func genC01(seed int64, tier string) *Scenario {
 		sc.Knobs["annlib"] = true
 	}
 	// configuration file: absent / valid / structured random / hostile / garbage
-	switch r.Intn(12) {
+	cfgKind := r.Intn(12)
+	if emph == 2 && r.Intn(2) == 0 {
+		// cyclic annotation graphs together with every opt-in type check switched on
+		sc.Files = append(sc.Files, File{Path: "luahelper.json", Data: Bytes(`{"BaseDir":"./","ShowWarnFlag":1,"OpenErrorTypes":[22,23,24,25,26,27,28,29]}`)})
+		sc.Knobs["json"] = "open-all"
+		cfgKind = 99
+	}
+	switch cfgKind {
 	case 10, 11:
 		cfg, user := randJSONConfig(r, names)
 		sc.Files = append(sc.Files, File{Path: "luahelper.json", Data: Bytes(cfg)})
@@ -358,7 +377,7 @@ func genC01(seed int64, tier string) *Scenario {
 			if c, ok := content[n]; ok && r.Intn(4) > 0 {
 				open[n] = c
 			} else {
-				t := string(c01FileContent(r, g))
+				t := string(c01FileContent(r, g, emph))
 				if !validUTF8(t) {
 					continue
 				}
@@ -398,7 +417,7 @@ func genC01(seed int64, tier string) *Scenario {
 			if _, ok := open[n]; !ok {
 				continue
 			}
-			t := string(c01FileContent(r, g))
+			t := string(c01FileContent(r, g, emph))
 			if !validUTF8(t) {
 				continue
 			}
@@ -415,7 +434,7 @@ func genC01(seed int64, tier string) *Scenario {
 				sc.Ops = append(sc.Ops, Op{Kind: "close", Path: n, Async: async})
 			}
 		case k < 21: // the world
-			c := c01FileContent(r, g)
+			c := c01FileContent(r, g, emph)
 			content[n] = c
 			sc.Ops = append(sc.Ops, Op{Kind: "fswrite", Path: n, Data: Bytes(c), NoEvt: r.Intn(6) == 0})
 		case k < 22:
